@@ -20,7 +20,7 @@ class Prop(GraphProp):
             "cone evaluate the altered terms first) and every request inside the cone must return the value of the unaltered world. non-trivial = at "
             "least 3 value-returning requests with at least one Hamiltonian term of order >= 1 evaluated; distinct = "
             "distinct sha256 of the event log")
-    probes = ["fmt_implicit", "altered_twin_runs", "altered_out_of_cone_request", "poison_runs", "poison_target_ok", "cb_H", "op_array", "multi_comp_world", "fmt_scalar_idx",
+    probes = ["fmt_implicit", "altered_twin_runs", "altered_twin_symbolic", "altered_twin_nonhermitian_term", "altered_out_of_cone_request", "poison_runs", "poison_target_ok", "cb_H", "op_array", "multi_comp_world", "fmt_scalar_idx",
               "fmt_scalar_vecs", "fmt_dict", "fmt_list", "h_term_order_ge2"]
     assumptions = ["only evaluations of the caller's Hamiltonian callback are observed (cache hits are not calls)",
                    "chained computations are excluded (their callback legitimately evaluates another computation)"]
@@ -32,6 +32,8 @@ class Prop(GraphProp):
 
     profile_alter = {"p_chain": 0.0, "fmts": ["blocked"] * 4 + ["scalar_idx"] * 3 + ["scalar_vecs", "dict", "dict", "nested"],
                      "p_illposed": 0.0, "p_derived": 0.3, "domains": ["dense"] * 6 + ["sparse"] * 2}
+
+    profile_alter_sym = {"p_chain": 0.0, "p_illposed": 0.0, "p_derived": 0.3, "domains": ["sym"]}
 
     def generate(self, r, tier, idx):
         import itertools
@@ -51,7 +53,8 @@ class Prop(GraphProp):
             # altered twin: every term outside the cone of n is scaled by a large (or small, or negative) factor in the world
             # that is executed; the schedule is unrestricted, and every request inside the cone - whatever was evaluated
             # before it - must return the value of the unaltered world
-            w = self.gen_world(r, tier, self.profile_alter)
+            symbolic = r.random() < 0.3  # exact worlds, also given as one sympy expression that the library expands term by term
+            w = self.gen_world(r, tier, self.profile_alter_sym if symbolic else self.profile_alter)
             nb, npert = len(w["sizes"]), w["npert"]
             cap = world_cap(w)
             cands = [n for n in itertools.product(range(world_box(w) + 1), repeat=npert) if 1 <= sum(n) <= cap]
@@ -68,7 +71,10 @@ class Prop(GraphProp):
                 s = r.choice(["H_tilde", "U", "U_inv"] + (["d0", "d2"] if w.get("derived") else []))
                 m = r.choice([m for m in cands if all(a <= b for a, b in zip(m, n))])
                 ops.append(["get", c, s, r.randrange(nb), r.randrange(nb), list(m)])
-            return {"world": w, "ops": ops, "faults": [], "alter": {"cone": [list(n)], "factor": r.choice([1e6, 1e6, 1e-6, -3.0, 1e3])}}
+            alter = {"cone": [list(n)], "factor": r.choice([1e6, 1e6, 1e-6, -3.0, 1e3])}
+            if symbolic and w["herm"] and w["fmt"] in ("sympy_expr", "symkeys"):
+                alter["nonherm"] = True
+            return {"world": w, "ops": ops, "faults": [], "alter": alter}
         w = self.gen_world(r, tier, self.profile)
         ops = self.gen_ops(r, w, tier, self.profile)
         return {"world": w, "ops": ops, "faults": []}
@@ -77,6 +83,10 @@ class Prop(GraphProp):
         out = super().execute(case)
         if case.get("alter"):
             out["counters"]["altered_twin_runs"] = 1
+            if case["world"].get("domain") == "sym":
+                out["counters"]["altered_twin_symbolic"] = 1
+            if case["alter"].get("nonherm"):
+                out["counters"]["altered_twin_nonhermitian_term"] = 1
         if case.get("poison"):
             out["counters"]["poison_runs"] = 1
             if out["violation"] is None:
